@@ -924,3 +924,115 @@ def cl1(ctx):
                     if isinstance(m_, (ast.FunctionDef, ast.AsyncFunctionDef)):
                         visit(m_)
     ctx.require(n_closures >= 15, 'only %d nested functions found' % n_closures)
+
+
+VG1_TYPE_TESTS = ('isinstance', 'inspect.isclass', 'callable', 'torch.is_tensor', 'is_namedtuple_class',
+                  'is_structseq_class', 'is_namedtuple', 'is_structseq', 'dataclasses.is_dataclass', 'issubclass',
+                  'inspect.isfunction')
+# value guards that a property depends on: (module, function, source of the tested atom, outcome on which
+# the argument is rejected, why)
+VG1_VALUE_GUARDS = [
+    ('optree.accessor', 'PyTreeEntry.__post_init__', 'self.kind == PyTreeKind.LEAF', True,
+     'a leaf has no children: there is nothing a path entry could address'),
+    ('optree.accessor', 'PyTreeEntry.__post_init__', 'self.kind == PyTreeKind.NONE', True,
+     'a None node has no children'),
+    ('optree.accessor', 'AutoEntry.__new__', 'kind != PyTreeKind.CUSTOM', True,
+     'automatic dispatch is defined for custom nodes only; built-in kinds have fixed entry classes'),
+    ('optree.ops', 'tree_flatten_one_level', 'handler is None', True,
+     'a type without a registry entry is a leaf: it has no one-level flattening'),
+    ('optree.registry', '_none_unflatten', 'next(iter(children), sentinel) is not sentinel', True,
+     'a None node has no children: any child handed to its unflatten function is an error'),
+]
+
+
+@rule('VG1', floor=25, title='a raise that is guarded by a type test is reached on the negative outcome of that test')
+def vg1(ctx):
+    """Convention of the package, confirmed for all 26 sites: `if not isinstance(x, T): raise ...`,
+    `if not inspect.isclass(cls): raise ...`, `if not all(torch.is_tensor(l) for l in leaves): raise`.
+    A guard that raises on the *positive* outcome rejects every valid argument and lets the invalid
+    ones through.  Judged on the CFG (outcome of the atom on which the raise is reached), so the
+    spelling of the negation does not matter.  A small table of value guards that properties rest
+    on is judged the same way, each with its reason."""
+    pkg = ctx.py()
+    scope = {'C04': ('optree.accessor',), 'C12': ('optree.registry',), 'C13': ('optree.registry',),
+             'C19': ('optree.dataclasses', 'optree.functools'), 'C01': ('optree.registry', 'optree.dataclasses'),
+             'C18': ('optree.typing', 'optree.ops'), 'C03': ('optree.ops',),
+             'C20': ('optree.integration.numpy', 'optree.integration.jax', 'optree.integration.torch')}.get(ctx.pid)
+    n = 0
+
+    def judge(mod, mname, qual, fn, guard, atom_node, rej, what, why=''):
+        cfg = pycfg(fn)
+        rn = cfg.node_of(guard.body[-1])
+        good = cfg.reachable([w for (w, lab) in cfg.succ[atom_node.idx] if lab is rej])
+        bad_, work_ = set(), [w for (w, lab) in cfg.succ[atom_node.idx] if lab is (not rej)]
+        while work_:
+            x_ = work_.pop()
+            if x_ in bad_:
+                continue
+            bad_.add(x_)
+            if cfg.nodes[x_].kind != 'cond':
+                work_ += [w for (w, _) in cfg.succ[x_]]
+        ctx.check('%s.%s/%s' % (mname.split('.')[-1], qual, what[:50]), rn in good and rn not in bad_,
+                  '%s.%s: `%s` leads to the raise on its %s outcome%s' % (mname, qual, what, 'positive' if rej else 'negative',
+                                                                         (' (%s)' % why) if why else ''),
+                  '%s.%s: the raise guarded by `%s` is reached on the wrong outcome of `%s`: valid arguments are '
+                  'rejected and invalid ones accepted%s' % (mname, qual, src(guard.test)[:60], what,
+                                                           (' - %s' % why) if why else ''), mod.loc(guard))
+    for mname, mod in sorted(pkg.modules.items()):
+        if mname.endswith('(pyi)'):
+            continue
+        for qual, fn in sorted(mod.funcs.items()):
+            cfg = None
+            for g in walk(fn):
+                if not (isinstance(g, ast.If) and g.body and isinstance(g.body[-1], ast.Raise)):
+                    continue
+                # only guards of this function itself
+                owner_ok = True
+                for q2, f2 in mod.funcs.items():
+                    if f2 is not fn and q2.startswith(qual + '.') and any(x is g for x in ast.walk(f2)):
+                        owner_ok = False
+                if not owner_ok:
+                    continue
+                cfg = cfg or pycfg(fn)
+                for cn in cfg.nodes:
+                    if cn.kind != 'cond' or cn.ast is None or not any(x is cn.ast for x in ast.walk(g.test)):
+                        continue
+                    a = cn.ast
+                    nm = call_name(a) if isinstance(a, ast.Call) else None
+                    if nm == 'all' and a.args and isinstance(a.args[0], ast.GeneratorExp) and \
+                            isinstance(a.args[0].elt, ast.Call) and call_name(a.args[0].elt) in VG1_TYPE_TESTS:
+                        nm = call_name(a.args[0].elt)
+                    if nm in VG1_TYPE_TESTS:
+                        n += 1
+                        if scope is None or mname in scope:
+                            judge(mod, mname, qual, fn, g, cn, False, src(a)[:60])
+                        else:
+                            ctx.ok('%s.%s/%s' % (mname.split('.')[-1], qual, src(a)[:50]),
+                                   '%s.%s: type-test guard (judged under the properties anchored in %s)'
+                                   % (mname, qual, mname), mod.loc(g))
+    ctx.require(n >= 20, 'only %d type-test guards found' % n)
+    for mname, qual, atom, rej, why in VG1_VALUE_GUARDS:
+        if scope is not None and mname not in scope:
+            continue
+        mod = pkg.mod(mname)
+        fn = mod.funcs.get(qual)
+        ctx.require(fn is not None, '%s.%s not found' % (mname, qual))
+        cfg = pycfg(fn)
+        hits = []
+        for g in walk(fn):
+            if isinstance(g, ast.If) and g.body and isinstance(g.body[-1], ast.Raise):
+                for cn in cfg.nodes:
+                    if cn.kind == 'cond' and cn.ast is not None and any(x is cn.ast for x in ast.walk(g.test)):
+                        s_ = src(cn.ast)
+                        flipped = None
+                        # the same atom written with the opposite operator tests the opposite outcome
+                        for a_, b_ in ((' == ', ' != '), (' is not ', ' is ')):
+                            if atom.replace(a_, b_) == s_ or atom.replace(b_, a_) == s_:
+                                flipped = s_ != atom
+                        if s_ == atom:
+                            hits.append((g, cn, rej))
+                        elif flipped:
+                            hits.append((g, cn, not rej))
+        ctx.require(hits, '%s.%s: the guard on `%s` was not found' % (mname, qual, atom))
+        for g, cn, r_ in hits[:1]:
+            judge(mod, mname, qual, fn, g, cn, r_, atom, why)
